@@ -168,7 +168,8 @@ def na_case(draw):
         seq = "".join(draw(st.lists(st.sampled_from("ACGT" if dna else "ACGU"), min_size=n, max_size=n)))
         strands.append(dict(id="NM"[k], dna=dna, seq=seq, p5=draw(st.booleans()), newnames=draw(st.booleans()),
                             style=draw(st.sampled_from(["bare", "R"])), start=draw(st.sampled_from([1, 10, 101])),
-                            q=draw(strat.quat())))  # fmt: skip
+                            stars=draw(st.sampled_from([0, 0, 1, 2])), shuffle=draw(st.sampled_from([0, 0, 7, 19, 402])),
+                            jitter=draw(st.sampled_from([0.0, 0.0, 0.03])), q=draw(strat.quat())))  # fmt: skip
     any_dna = any(x["dna"] for x in strands)
     ffs = ["AMBER", "CHARMM", "TYL06"] + ([] if any_dna else ["PARSE"])
     return dict(part="na", desc=dict(chains=[], na=strands), ff=draw(st.sampled_from(ffs)),
